@@ -1,5 +1,6 @@
 (* C04 — several criteria compose lexicographically in the user-given order. *)
-From MP Require Import LP.Canon Proofs.StageInv Proofs.StageAll Opts.SolverOpts Proofs.OptsProofs Props.Examples.
+From MP Require Import LP.Canon LP.Oracle Run.Main Text.Render Proofs.StageInv Proofs.StageAll Opts.SolverOpts Proofs.OptsProofs
+                       Proofs.CommandLine Props.Examples.
 Local Open Scope list_scope. Open Scope Z_scope.
 
 (* the printed matching is optimal for the first criterion's stages among all feasible matchings, for the next
@@ -32,6 +33,25 @@ Proof.
   exact (proj2 (LexOpt_head _ _ _ _ H)).
 Qed.
 Print Assumptions C04_first_never_worsened.
+
+(* the whole statement on the Solver object: from the command line (criteria given with position numbers, any flag
+   order, gaps allowed; Run/Main.v) on a file of the documented format, the matching the results are printed from is
+   LexOpt for the stages of the requested criteria taken in increasing order of POSITION (cli_opts = by_position) *)
+Theorem C04_command_line : forall c A trailer t0 limit e s s',
+  acceptable_ns (c_ns c) (c_twopl c) (c_stab c) = true ->
+  wf_ast (c_na c) (c_twopl c) A = true ->
+  wf (denote (c_na c) (c_twopl c) A) = true ->
+  admissible (denote (c_na c) (c_twopl c) A) (cli_opts c) = true ->
+  c_bf c = false ->
+  milp_ok (denote (c_na c) (c_twopl c) A) (e_solve e) ->
+  solver_new c (Some (render (c_na c) A trailer)) t0 = SReady s -> do_solve s limit e = Ok s' ->
+  s_status s' = "Optimal"%string ->
+  LexOpt (Feas (c_pc c) (c_stab c) (denote (c_na c) (c_twopl c) A))
+         (map (prim_objective_spec (denote (c_na c) (c_twopl c) A))
+              (all_prims (denote (c_na c) (c_twopl c) A) (cli_opts c)))
+         (matching_of (denote (c_na c) (c_twopl c) A) (val_fun (s_vals s'))).
+Proof. exact command_line_lex_optimal. Qed.
+Print Assumptions C04_command_line.
 
 Example C04_example :
   let o := mkOpts false false [(MaxSize, []); (MinCost, [1; 1])] in
